@@ -154,7 +154,7 @@ Section May.
     destruct (edges_ok asrt st ws); [|reflexivity]. simpl in H.
     destruct (fan_in ws); [discriminate|].
     destruct (memN kEND (targets ws)); [|discriminate].
-    destruct (value_for kEND ws); [discriminate|].
+    cbv zeta in H.
     match type of H with (if ?x then _ else _) = _ => destruct x end; discriminate.
   Qed.
 
